@@ -736,10 +736,16 @@ func checkEmit(prop, tier string, seed int, updateLedger bool) int {
 			if en.Dir == "dispatch" && c.Kind != "match" {
 				continue
 			}
+			if c.Kind == "empty" && !(en.Lang == "lua" && (en.Dir == "dec" || en.Dir == "sub")) {
+				continue
+			}
 			if c.Kind == "order" && (en.Dir == "dispatch" || en.Lang == "rust") {
 				continue // Rust's entries are per field; the order of its steps is decided by the caller loop
 			}
 			// only the cells that can carry an obligation of this property
+			if (en.Dir == "test") != (prop == "C17") {
+				continue // the unit-test emitters carry obligations of C17 only
+			}
 			if (prop == "C15") != (en.Lang == "lua") && (prop == "C15" || en.Dir != "dec") {
 				continue // C15 runs the Lua emitters only; the other properties do not need the extra Lua entries
 			}
